@@ -1415,6 +1415,8 @@ pub fn gen_project(r: &mut Rng, corpus: &Corpus) -> Project {
 pub struct Gen<'a> {
     pub corpus: &'a Corpus,
     pub verif_seed: u64,
+    /// the `prqlc` binary and the preload library exist (built by ./check and setup.sh)
+    pub cli_available: bool,
 }
 
 fn pick_opts(r: &mut Rng, dialect_sensitive: bool) -> Opts {
@@ -1656,6 +1658,83 @@ impl<'a> Gen<'a> {
         }
     }
 
+    /// The real command-line binary on a generated project directory (or a one-file
+    /// directory for the commands that take a single source).
+    pub fn cli_op(&self, r: &mut Rng) -> Op {
+        let single = r.below(4) == 0;
+        let (files, main_path) = if single {
+            let mut src = self.program(r);
+            if src.len() > 20_000 {
+                src = "from t | derive {a = x, b = x} | sort a | select {a, b} | take 5".to_string();
+            }
+            (vec![("q.prql".to_string(), src)], None)
+        } else {
+            let p = gen_project(r, self.corpus);
+            let mp = if p.main_path.is_empty() { None } else { Some(p.main_path.join(".")) };
+            (p.files, mp)
+        };
+        let mut args: Vec<String> = Vec::new();
+        let mut rewrite = false;
+        let mut debug_log = false;
+        let mut main_path = main_path;
+        match r.below(if single { 14 } else { 10 }) {
+            0..=5 => {
+                args.push("compile".into());
+                let o = pick_opts(r, false);
+                args.push("--target".into());
+                args.push(o.target);
+                if !o.sig {
+                    args.push("--hide-signature-comment".into());
+                }
+                if !o.format {
+                    args.push("--no-format".into());
+                }
+                debug_log = r.below(8) == 0;
+            }
+            6 | 7 => {
+                args.push("collect".into());
+                main_path = None;
+            }
+            8 => {
+                args.push("fmt".into());
+                rewrite = true;
+                main_path = None;
+            }
+            9 => {
+                args.extend(["experimental".to_string(), "doc".to_string()]);
+                if r.below(2) == 0 {
+                    args.extend(["--format".to_string(), "html".to_string()]);
+                }
+                main_path = None;
+            }
+            10 => {
+                args.extend(["debug".to_string(), "annotate".to_string()]);
+                main_path = None;
+            }
+            11 => {
+                args.extend(["lex".to_string(), "--format".to_string(), "json".to_string()]);
+                main_path = None;
+            }
+            12 => {
+                args.extend(["experimental".to_string(), "highlight".to_string()]);
+                main_path = None;
+            }
+            _ => {
+                args.extend(["debug".to_string(), "lineage".to_string(), "--format".to_string(), "json".to_string()]);
+                main_path = None;
+            }
+        }
+        Op::Cli {
+            files,
+            args,
+            main_path,
+            rewrite,
+            debug_log,
+            hash_base: 0,
+            readdir_seed: 0,
+        }
+    }
+
     /// Stratum A: one operation under K+1 hash bases (and, for projects, K+1
     /// enumeration orders). Call 0 is the reference context itself.
     /// Stratum A plan; one in eight runs in a freshly exec'd process (fault `address_space`).
@@ -1672,6 +1751,16 @@ impl<'a> Gen<'a> {
             self.project_op(&mut r, None)
         } else {
             self.single_op(&mut r, false)
+        };
+        // one plan in fourteen runs the real command-line binary instead (own PRNG stream, so
+        // that the other plans are what they were before the operation existed)
+        let op = {
+            let mut cr = Rng::new(mix3(self.verif_seed, 0xC11, i));
+            if self.cli_available && cr.below(14) == 0 {
+                self.cli_op(&mut cr)
+            } else {
+                op
+            }
         };
         let mut calls = vec![Call {
             op: op.clone(),
@@ -1716,9 +1805,20 @@ impl<'a> Gen<'a> {
                     dups.clear();
                 }
             }
+            let hb = 1 + (r.next_u64() >> 16);
+            if let Op::Cli {
+                hash_base,
+                readdir_seed,
+                ..
+            } = &mut o
+            {
+                let mut cr = Rng::new(mix3(s, 0xC12, calls.len() as u64));
+                *hash_base = hb;
+                *readdir_seed = if cr.below(4) == 0 { 0 } else { 1 + (cr.next_u64() >> 16) };
+            }
             calls.push(Call {
                 op: o,
-                hash_base: Some(1 + (r.next_u64() >> 16)),
+                hash_base: Some(hb),
                 panic_at: None,
                 session: false,
                 warm: false,
